@@ -5,15 +5,45 @@ _TB = ("Trusted: Hypothesis, CPython, NumPy/SymPy/mpmath/networkx arithmetic, th
        "and the reference components in /verif/bbv (grammar reader, reference lexer, Earley recogniser, reference interpreter), "
        "which are cross-validated against the implementation on the unchanged tree. Exploration never establishes absence.")
 
+def _c(text, ref_, technique, note=None, category="exploration"):
+    return {"text": text, "design_ref": "DESIGN.md section 4/" + ref_, "note": note or _TB, "technique": technique, "category": category}
+
+
 CHECKS = {
-    "C03": {
-        "text": "Generated-input search: random typed expressions in every lexical form are loaded and compared with an mpmath "
-                "reference evaluated on the tree fixed by the stated binding order (relative 1e-12, integer kind exact); "
-                "thousands of well-conditioned cases per run, failures shrunk and localised to the culprit operator.",
-        "design_ref": "DESIGN.md section 4/C03",
-        "note": _TB,
-        "technique": "property-based testing (Hypothesis) against an mpmath reference evaluator with error-bound conditioning filter",
-    },
+    "C01": _c("Generated-input search (round trip): valid scripts with every construct are loaded, serialised and re-loaded for three "
+              "generations; name/version/target/type/options/parameters/operations must come back exactly (symbolic arguments as equal "
+              "functions). Two genuine defects are recorded as known findings and excluded by bucket so the search continues.",
+              "C01", "property-based round-trip testing (Hypothesis) with root-cause bucketing"),
+    "C02": _c("Generated-input search against a reference model: an independent interpreter of the script model computes the denoted "
+              "program (metadata, options, operation list, modes, arguments, mode set, length) and blackbird.loads must agree on every "
+              "generated script.", "C02", "property-based testing (Hypothesis) against an independent reference interpreter"),
+    "C03": _c("Generated-input search: random typed expressions in every lexical form are loaded and compared with an mpmath "
+              "reference evaluated on the tree fixed by the stated binding order (relative 1e-12, integer kind exact); failures are "
+              "shrunk and localised to the culprit operator.", "C03",
+              "property-based testing (Hypothesis) against an mpmath reference evaluator with error-bound conditioning filter"),
+    "C04": _c("Generated-input search (metamorphic/differential): template(**values) is compared with loading the text in which every "
+              "{p} is replaced by its bracketed literal, plus the parameter-set, is_template, no-symbol-left and missing-value laws.",
+              "C04", "property-based metamorphic testing (Hypothesis): instantiate vs textual substitution"),
+    "C05": _c("Generated-input search against the reference model for declared types, array layout/shape/dtype and A[k], with negative "
+              "variants (ragged rows, contradicting shapes) that must be refused.", "C05",
+              "property-based testing (Hypothesis) against a reference model, with generated negative cases"),
+    "C06": _c("Generated-input search (metamorphic + reference): each loop script is compared with its textual unrolling and with the "
+              "reference interpreter; negative variants (loop variable used after the loop, wrong-typed list value) must be refused.",
+              "C06", "property-based metamorphic testing (Hypothesis): loop vs unrolled text"),
+    "C08": _c("Generated-input search against the reference model: register expressions must arrive as transforms whose listed registers "
+              "are exactly the written ones and whose function, applied in the listed order, computes the written formula; shards run "
+              "under different PYTHONHASHSEED values because the pairing is hash-order dependent.", "C08",
+              "property-based testing (Hypothesis) against a reference model, across hash seeds"),
+    "C10": _c("Generated-input search against a grammar-derived recogniser: grammatical texts, all kinds of single-token mutants, "
+              "truncations, token soups and raw strings; verdict, exception type and reported position are checked against the first "
+              "non-viable token computed by an Earley recogniser built from blackbird.g4 at run time.", "C10",
+              "grammar-based fuzzing / property-based testing (Hypothesis) with an Earley reference recogniser as oracle"),
+    "C14": _c("Complete comparison of all generated artefacts (six copies of the serialised automata word by word, name tables, .tokens, "
+              "listener/visitor method sets) with each other and with the token/rule order derived from blackbird.g4, plus differential "
+              "testing of the shipped Python lexer and parser against the grammar-derived reference on generated strings, token "
+              "sequences, their mutants and all sentences up to a length bound.", "C14",
+              "differential testing (Hypothesis + bounded-exhaustive sentence enumeration) and exhaustive artefact comparison",
+              note=_TB + " The C++ lexer/parser cannot be executed in this sandbox; for the C++ target the claim is artefact identity."),
 }
 
 NOTES = ("All checks: ./check <ID> quick|thorough; VERIF_SEED selects the Hypothesis seed; exit 0 held / 1 VIOLATION / 2 harness error. "
